@@ -199,6 +199,9 @@ def main(argv=None):
     # replay files
     rdir = os.path.join(HOME, 'replays')
     os.makedirs(rdir, exist_ok=True)
+    for old in os.listdir(rdir):
+        if old.startswith(prop + '-'):
+            os.unlink(os.path.join(rdir, old))
     for v in unlisted:
         name = '%s-%s.json' % (prop, core.hkey(json.dumps(v['sig'], sort_keys=True, default=str), v.get('regression_of')))
         path = os.path.join(rdir, name)
